@@ -71,3 +71,21 @@ def norm_ty(t):
     t = re.sub(r"'\w+\s*,?\s*", "", t)
     t = t.replace("<>", "")
     return t.strip()
+
+
+def reached_only_from(prog, crate, cg, name, allowed, _seen=None):
+    """is `name` one of the allowed functions, or a private helper all of whose callers are (transitively) such?  Lets who-writes rules
+    accept a store that was moved from an allowed writer into a helper it calls."""
+    if name in allowed:
+        return True
+    seen = _seen if _seen is not None else set()
+    if name in seen:
+        return False
+    seen.add(name)
+    f = prog.get(crate, name)
+    if f is None or f.j.get("vis") == "pub":
+        return False
+    callers = [g for g, es in cg.edges.items() if name in es and g != name]
+    if not callers:
+        return False
+    return all(reached_only_from(prog, crate, cg, g, allowed, seen) for g in callers)
